@@ -305,10 +305,9 @@ class SymArray(_nd):
     # ---- indexing with symbolic masks
     def __getitem__(self, key):
         if isinstance(key, tuple) and builtins.any(_is_objmask(k) for k in key):
-            *pre, last = key
-            if builtins.any(_is_objmask(k) for k in pre):
-                raise FacadeMissing("symbolic mask not in last index position")
-            return _nd.__getitem__(self, tuple(pre))[last]
+            # numpy semantics need a real boolean array in that index position: concretise (forks on symbolic entries)
+            key = tuple(concretize_mask(k) if _is_objmask(k) else k for k in key)
+            return _nd.__getitem__(self, key)
         if _is_objmask(key):
             key = concretize_mask(key)
         r = _nd.__getitem__(self, key)
@@ -317,12 +316,14 @@ class SymArray(_nd):
     def __setitem__(self, key, value):
         if isinstance(key, tuple) and builtins.any(_is_objmask(k) for k in key):
             *pre, last = key
-            if builtins.any(_is_objmask(k) for k in pre):
-                raise FacadeMissing("symbolic mask not in last index position")
-            sub = _nd.__getitem__(self, tuple(pre))
-            if not isinstance(sub, _nd):
-                raise FacadeMissing("mask on scalar")
-            sub.view(SymArray)[last] = value
+            simple_pre = builtins.all(isinstance(k, (int, _np.integer)) for k in pre)
+            if simple_pre and _is_objmask(last):
+                sub = _nd.__getitem__(self, tuple(pre))
+                if isinstance(sub, _nd):
+                    sub.view(SymArray)[last] = value
+                    return
+            key = tuple(concretize_mask(k) if _is_objmask(k) else k for k in key)
+            _nd.__setitem__(self, key, plain(value) if isinstance(value, SymArray) else value)
             return
         if _is_objmask(key):
             m = key.view(_nd)
@@ -378,11 +379,33 @@ class SymArray(_nd):
         if has_sym(self):
             if dt.kind == "f":
                 return self.copy()
+            if dt.kind in "iu":
+                return _astype_int(self, dt)
             raise FacadeMissing("astype(%s) on symbolic data" % dt)
         return _nd.astype(self.view(_nd), dtype, *a, **kw)
 
     def tolist(self):
         return self.view(_nd).tolist()
+
+
+def _astype_int(a, dt):
+    """cast of symbolic reals to an integer dtype: truncation toward zero; out of range gives the platform's
+    'integer indefinite' value (minimum of the type), as numpy does on x86-64.  Result: object array of SymReal holding
+    integer values (z3 ToInt), usable in tuples/hashes through the injective-hash stub of the harness."""
+    info = _np.iinfo(dt)
+
+    def k(v):
+        if not is_sym(v):
+            f = float(v)
+            if f != f or f >= info.max + 1.0 or f <= info.min - 1.0:
+                return float(info.min)
+            return float(int(f))
+        t = SymReal.lift(v).t
+        fl = z3.ToReal(z3.ToInt(t))                       # floor
+        tr = z3.If(t >= 0, fl, z3.If(fl == t, fl, fl + 1))  # toward zero
+        inr = z3.And(t < core.rv(info.max + 1), t > core.rv(info.min - 1))
+        return cur().named(SymReal(z3.If(inr, tr, core.rv(info.min)), 12))
+    return _np.frompyfunc(k, 1, 1)(plain(a)).view(SymArray)
 
 
 # --------------------------------------------------------------------------- array functions
@@ -525,9 +548,12 @@ def f_clip(a, a_min=None, a_max=None, out=None, **kw):
 
 def f_interp(x, xp, fp, left=None, right=None, period=None):
     """piece-wise linear interpolation, numpy semantics for increasing xp; interval located by forking"""
-    if left is not None or right is not None or period is not None:
-        raise FacadeMissing("interp with left/right/period")
-    if not (has_sym(x) or has_sym(xp) or has_sym(fp)):
+    if period is not None:
+        raise FacadeMissing("interp with period")
+    if not (has_sym(x) or has_sym(xp) or has_sym(fp) or has_sym(left) or has_sym(right)):
+        if left is not None or right is not None:
+            return wrap_num(_np.interp(to_float(plain(to_obj(x))) if isinstance(x, (_nd, list, tuple)) else float(x),
+                                       to_float(plain(to_obj(xp))), to_float(plain(to_obj(fp))), left=left, right=right))
         return wrap_num(_np.interp(to_float(plain(to_obj(x))) if isinstance(x, (_nd, list, tuple)) else float(x),
                                    to_float(plain(to_obj(xp))), to_float(plain(to_obj(fp)))))
     xs = list(plain(to_obj(xp)).ravel()); fs = list(plain(to_obj(fp)).ravel())
@@ -536,6 +562,10 @@ def f_interp(x, xp, fp, left=None, right=None, period=None):
         raise ValueError("array of sample points is empty")
 
     def one(v):
+        if left is not None and (bool(SymReal.lift(v) < xs[0]) if (is_sym(v) or is_sym(xs[0])) else v < xs[0]):
+            return left
+        if right is not None and (bool(SymReal.lift(v) > xs[-1]) if (is_sym(v) or is_sym(xs[-1])) else v > xs[-1]):
+            return right
         if n == 1:
             return fs[0]
         if bool(SymReal.lift(v) <= xs[0]) if (is_sym(v) or is_sym(xs[0])) else v <= xs[0]:
@@ -580,9 +610,16 @@ def f_sort(a, axis=-1, **kw):
 
 
 def f_unique(a, **kw):
-    if has_sym(a):
-        raise FacadeMissing("unique on symbolic data")
-    return wrap_num(_np.unique(to_float(plain(to_obj(a))), **kw))
+    if not has_sym(a):
+        return wrap_num(_np.unique(to_float(plain(to_obj(a))), **kw))
+    if kw:
+        raise FacadeMissing("unique with options on symbolic data")
+    vals = []
+    for v in plain(to_obj(a)).ravel():
+        if not builtins.any(bool(SymReal.lift(v) == u) if (is_sym(v) or is_sym(u)) else v == u for u in vals):
+            vals.append(v)
+    out = to_obj(vals)
+    return out[f_argsort(out)]
 
 
 def f_mean(a, axis=None, **kw):
@@ -762,6 +799,22 @@ def f_digitize(x, bins, right=False):
     return f_searchsorted(bins, x, side="left" if right else "right")
 
 
+def f_nan_to_num(x, copy=True, nan=0.0, posinf=None, neginf=None):
+    """Real mode: symbolic entries are finite reals (NaN/inf excluded by the domain-safety obligations) and pass through;
+    concrete entries get numpy's treatment"""
+    a = to_obj(x)
+
+    def k(v):
+        if is_sym(v):
+            return v
+        return float(_np.nan_to_num(float(v), nan=nan, posinf=posinf, neginf=neginf))
+    r = _np.frompyfunc(k, 1, 1)(plain(a))
+    if isinstance(r, _nd):
+        r = r.view(SymArray)
+        return unbox(r) if r.ndim == 0 and not isinstance(x, _nd) else r
+    return r
+
+
 def f_trapz(y, x=None, dx=1.0, axis=-1):
     raise FacadeMissing("trapz")
 
@@ -773,7 +826,7 @@ FUNCS = {
     "prod": f_prod, "linalg.inv": f_inv, "tensordot": f_tensordot, "dot": f_dot, "outer": f_outer,
     "allclose": f_allclose, "isclose": f_isclose, "linalg.matrix_rank": f_matrix_rank,
     "count_nonzero": f_count_nonzero, "diff": f_diff, "copy": f_copy,
-    "searchsorted": f_searchsorted, "digitize": f_digitize,
+    "searchsorted": f_searchsorted, "digitize": f_digitize, "nan_to_num": f_nan_to_num,
 }
 
 PASS_THROUGH = {
